@@ -224,13 +224,41 @@ def _export_replace_order():
 
 
 def _export_dummy_for():
-    """containers for whose names SpaceTranslator._get_class_def emits `name = None` lines"""
+    """containers for whose names SpaceTranslator._get_class_def emits `name = None` lines.
+    Two shapes are known: one loop per container (`for k, v in space.refs.items(): … lines.append(k + ' = None')`),
+    and - since fix 77f6b99 - a list `names` collected from `space.refs`, `space.spaces` and the `parameters` of
+    the space and of the spaces it is in, emitted by one loop over `dict.fromkeys(names)`."""
     cls = _class(_parse("modelx/export/exporter.py"), "SpaceTranslator")
     fn = _method(cls, "_get_class_def")
     res = []
+    collected = []       # containers that feed the list `names`
     for st in fn.body:
-        if isinstance(st, ast.For) and "lines.append(k + ' = None')" in _src_of(st):
+        src = _src_of(st)
+        if isinstance(st, ast.Assign) and _src_of(st.targets[0]) == "names":
+            m = [c for c in ("refs", "cells", "spaces") if src == "names = [k for k in space.%s if k[0] != '_']" % c]
+            if not m:
+                raise ValueError("unknown initial value of names: " + src)
+            collected.append(m[0])
+        elif isinstance(st, ast.Expr) and src.startswith("names.extend("):
+            m = [c for c in ("refs", "cells", "spaces")
+                 if src == "names.extend((k for k in space.%s if k[0] != '_'))" % c]
+            if not m:
+                raise ValueError("unknown extension of names: " + src)
+            collected.append(m[0])
+        elif isinstance(st, ast.While) and "names.extend" in src:
+            ok = (_src_of(st.test) == "isinstance(parent, BaseSpace)"
+                  and [_src_of(b) for b in st.body] ==
+                  ["if parent.parameters:\n    names.extend(parent.parameters)", "parent = parent.parent"])
+            if not ok:
+                raise ValueError("unknown parameter walk: " + src)
+            collected.append("params")
+        elif isinstance(st, ast.For) and "lines.append(k + ' = None')" in src:
             it = _src_of(st.iter)
+            if it == "dict.fromkeys(names)":
+                if [_src_of(b) for b in st.body] != ["lines.append(k + ' = None')"]:
+                    raise ValueError("unknown body of the dummy loop")
+                res.extend(collected)
+                continue
             m = [c for c in ("refs", "cells", "spaces") if it == "space.%s.items()" % c]
             if not m:
                 raise ValueError("unknown container " + it)
@@ -238,6 +266,23 @@ def _export_dummy_for():
     if not res:
         raise ValueError("no dummy assignment loop")
     return res
+
+
+_FINITE_GUARD = " and (not (type(value) is float and (not math.isfinite(value))))"
+
+
+def _literal_test(src):
+    """the test of the literal branch of ref_value -> "exact" | "isinstance", with "-finite" appended when the
+    floats that are not finite are excluded (since fix 3bae90c: their repr is a name and they are pickled)"""
+    suffix = ""
+    if src.endswith(_FINITE_GUARD):
+        src, suffix = src[:-len(_FINITE_GUARD)], "-finite"
+    if src in ("any((type(value) is t for t in literal_types))", "type(value) in literal_types"):
+        return "exact" + suffix
+    if src in ("isinstance(value, literal_types)", "isinstance(value, tuple(literal_types))",
+               "any((isinstance(value, t) for t in literal_types))"):
+        return "isinstance" + suffix
+    return None
 
 
 def _export_ref_value():
@@ -292,18 +337,8 @@ def _export_ref_value():
             if not ok:
                 raise ValueError("interface branch changed")
             order.append("interface")
-        elif src in ("any((type(value) is t for t in literal_types))", "type(value) in literal_types"):
-            test = "exact"
-            order.append("literal")
-        elif src in ("any((type(value) is t for t in literal_types)) and (not (type(value) is float and "
-                     "(not math.isfinite(value))))",
-                     "type(value) in literal_types and (not (type(value) is float and (not math.isfinite(value))))"):
-            # since fix 3bae90c: nan, inf and -inf (their repr is a name) are left to the pickle branch
-            test = "exact-finite"
-            order.append("literal")
-        elif src in ("isinstance(value, literal_types)", "isinstance(value, tuple(literal_types))",
-                     "any((isinstance(value, t) for t in literal_types))"):
-            test = "isinstance"
+        elif _literal_test(src) is not None:
+            test = _literal_test(src)
             order.append("literal")
         elif src == "isinstance(value, types.ModuleType) and value in sys.modules.values()":
             if ret(node.body) != "\"_mx_sys.import_module('\" + value.__name__ + \"')\"":
